@@ -251,6 +251,43 @@ fn pordc(o: Option<std::cmp::Ordering>) -> char {
     o.map(ordc).unwrap_or('N')
 }
 
+/// comparisons among values that SHARE a buffer: for every char boundary m of the string, l / r = the halves of
+/// x.split_at(m), pl = x.slice_ref(&x[..m]), pr = x.slice_ref(&x[m..]); each entry is
+/// `<l==x><x==l><pl==x><r==x><l==pl><pr==r><l==str(x)><pl==&str prefix><cmp(l,x)><cmp(pr,x)>`
+fn c20q(line: &str) -> String {
+    let b = unhex(line);
+    let s = match std::str::from_utf8(&b) {
+        Ok(s) => s,
+        Err(_) => return "INVALID".to_string(),
+    };
+    let x = ByteString::from(s);
+    let mut out = Vec::new();
+    for m in 0..=s.len() {
+        if !s.is_char_boundary(m) {
+            continue;
+        }
+        let (l, r) = x.split_at(m);
+        let pl = x.slice_ref(&x[..m]);
+        let pr = x.slice_ref(&x[m..]);
+        let xs: &str = &x;
+        out.push(format!(
+            "{}:{}{}{}{}{}{}{}{}{}{}",
+            m,
+            bit(l == x),
+            bit(x == l),
+            bit(pl == x),
+            bit(r == x),
+            bit(l == pl),
+            bit(pr == r),
+            bit(l == *xs),
+            bit(pl == &xs[..m]),
+            ordc(l.cmp(&x)),
+            ordc(pr.cmp(&x))
+        ));
+    }
+    out.join(",")
+}
+
 fn c20p(line: &str) -> String {
     let mut it = line.split(',');
     let (ha, hb) = match (it.next(), it.next(), it.next()) {
@@ -422,6 +459,7 @@ fn main() {
         "c20v" => c20v,
         "c20e" => c20e,
         "c20p" => c20p,
+        "c20q" => c20q,
         "c20s" => c20s,
         m => panic!("unknown mode {m}"),
     };
